@@ -157,7 +157,11 @@ def correspondence(ctx):
 
 def check_invariance(ctx, name, data, provider):
     import icalendar
-    ref = icalendar.Calendar.from_ical(data, multiple=True)
+    try:
+        ref = icalendar.Calendar.from_ical(data, multiple=True)
+    except ValueError:
+        ctx.count('not-accepted-under-' + provider)   # e.g. a VTIMEZONE this provider cannot build: not well-formed here
+        return
     ref_trees = [tree_of(c) for c in ref]
     ref_bytes = [c.to_ical() for c in ref]
     ref_off = [offsets(c) for c in ref]
